@@ -337,7 +337,15 @@ class MonitoredFocusList(MonitoredList[_T], typing.Generic[_T]):
             return focus
 
         focus = self._focus
+        if step < 0:
+            # same items addressed in ascending order
+            if num_removed:
+                start, stop, step = start + (num_removed - 1) * step, start + 1, -step
+            else:
+                start, stop, step = 0, 0, 1
         if step == 1:
+            # a reversed simple slice is empty: list inserts at start
+            stop = max(start, stop)
             if start + num_new_items <= focus < stop:
                 focus = stop
             # adjust for added/removed items
